@@ -35,7 +35,7 @@ ASSUMPTIONS = [
 ]
 _REG = ['%s/%s' % (a, b) for a in ('Tbelow', 'Tin', 'Tabove') for b in ('Pbelow', 'Pin', 'Pabove')]
 REQUIRED = {('region:' + r): 0.03 for r in _REG}
-REQUIRED.update({'history:other-mode': 0.1, 'history:same-mode': 0.1})
+REQUIRED.update({'history:other-mode': 0.1, 'history:same-mode': 0.1, 'axis:integer-temperatures': 0.15})
 
 
 
@@ -45,9 +45,9 @@ INKINDS = ['inside', 'node', 'ulp-', 'ulp+', 'inside']
 
 
 @st.composite
-def _point(draw):
+def _point(draw, region=None):
     """one draw picks the region (mixed corners first), then the in-grid flavour per axis"""
-    tk, pk = draw(st.sampled_from(REGIONS))
+    tk, pk = region or draw(st.sampled_from(REGIONS))
     res = []
     for k in (tk, pk):
         kind = draw(st.sampled_from(INKINDS)) if k == 'in' else k
@@ -55,9 +55,15 @@ def _point(draw):
     return res
 
 
+# each interpolation mode gets half of every run, and within it a fixed share of queries inside the grid on both axes (the
+# only place where the two modes, and the order of the two 1-D interpolations, differ)
+STRATA = {'linear': 2, 'exp': 2, 'linear:in': 1, 'exp:in': 1}
+STRATA_KEY = 'mode'
+
+
 @st.composite
-def _case(draw):
-    pt = draw(_point())
+def _case(draw, part=None):
+    pt = draw(_point(('in', 'in') if part and part.endswith(':in') else None))
     nT = draw(S.ints(1, 6))
     nP = draw(S.ints(1, 6))
     nW = draw(S.ints(1, 6))
@@ -73,7 +79,7 @@ def _case(draw):
         delta = [0.0] * nval
     else:
         delta = draw(st.lists(st.floats(0.0, span), min_size=nval, max_size=nval))
-    mode = draw(st.sampled_from(['linear', 'exp']))
+    mode = part.split(':')[0] if part else draw(st.sampled_from(['linear', 'exp']))
     if mode == 'exp' and span > 10.0:
         # neighbouring nodes more than 1e10 apart leave no significant digits in the
         # pressure-interpolated value a float64 kernel feeds to log(); outside the domain
@@ -87,13 +93,19 @@ def _case(draw):
     # set_interpolation_mode, or an earlier query elsewhere in the same mode
     warm = draw(st.sampled_from([None, 'other-mode', None, 'same-mode']))
     wpt = draw(st.tuples(st.floats(0.05, 0.95), st.floats(0.05, 0.95)))
+    # the temperature axis stored as whole numbers in an integer array (300, 400, ... K as read from a file that holds
+    # them so): the same table, and a query between the nodes is still bracketed by them
+    int_T = draw(st.sampled_from([False, False, True]))
+    if int_T:
+        T0 = float(round(T0))
+        dT = [float(max(1, round(x))) for x in dT]
     return {'T0': T0, 'dT': dT, 'lP0': P0, 'dlP': dP, 'nW': nW, 'base': base,
             'delta': delta, 'ng': ng, 'mode': mode, 'sub': sub,
-            'tpt': pt[0], 'ppt': pt[1], 'warm': warm, 'wpt': list(wpt)}
+            'tpt': pt[0], 'ppt': pt[1], 'warm': warm, 'wpt': list(wpt), 'int_T': int_T}
 
 
-def strategy(tier):
-    return _case()
+def strategy(tier, part=None):
+    return _case(part)
 
 
 def _pick(grid, spec, lo_out, hi_out):
@@ -152,11 +164,14 @@ def check(case):
 
     warm = case.get('warm')
     mode0 = mode if warm != 'other-mode' else {'linear': 'exp', 'exp': 'linear'}[mode]
+    Tg_s = synth._as_stored(Tg, bool(case.get('int_T')))
+    if Tg_s.dtype.kind == 'i':
+        out.cls('axis:integer-temperatures')
     if ng:
         w = np.ones(ng) / ng
-        op = synth.SynthKTable('XX', wn, Tg, Pg, tab, w, mode=mode0)
+        op = synth.SynthKTable('XX', wn, Tg_s, Pg, tab, w, mode=mode0)
     else:
-        op = synth.SynthOpacity('XX', wn, Tg, Pg, tab, mode=mode0)
+        op = synth.SynthOpacity('XX', wn, Tg_s, Pg, tab, mode=mode0)
     if warm:
         out.cls('history:' + warm)
         fT, fP = case['wpt']
